@@ -279,15 +279,15 @@ public:
             lk.unlock();
             p(std::forward<Args>(args)...);
             return future<void>::set_value();
+        } else if (this->_queue.size() >= _limit) {
+            //queue is full, the item is held with the promise until
+            //a pop() makes a room for it (the item must not be placed to the queue now)
+            return [&](auto promise) {
+                _blocked.push({T(std::forward<Args>(args)...),std::move(promise)});
+            };
         } else {
             this->_queue.emplace(std::forward<Args>(args)...);
-            if (this->_queue.size() >= _limit) {
-                return [&](auto promise) {
-                    _blocked.push({T(std::forward<Args>(args)...),std::move(promise)});
-                };
-            } else {
-                return future<void>::set_value();
-            }
+            return future<void>::set_value();
         }
     }
 
